@@ -194,6 +194,40 @@ def requery(c):
                 i0 * T * c.exp(-(4 * c.pi * k2 / w) * zv * 1e3))
 
 
+@contract('C16.factory.coating_given_is_the_coating_that_acts',
+          ['optiland/surfaces/surface_factory.py:SurfaceFactory.create_surface', 'optiland/surfaces/surface_factory.py:SurfaceFactory.configure_coating',
+           'optiland/optic.py:Optic.add_surface', SS + ':Surface._trace_real', CO + ':SimpleCoating.reflect', CO + ':SimpleCoating.transmit'],
+          ['C16'], bundle=True, max_paths=64)
+def factory_coating(c):
+    """a coating object handed to Optic.add_surface is the coating of that surface -- on a refracting surface, on a mirror, and on a
+    surface whose two media are one and the same object (a coated dummy / filter plane): the axial ray leaves each of them with its
+    intensity multiplied by the stated transmittance (reflectance at the mirror)"""
+    Optic = c.mod('optiland.optic').Optic
+    SimpleCoating = c.mod('optiland.coatings').SimpleCoating
+    IdealMaterial = c.mod('optiland.materials').IdealMaterial
+    T1, T2 = c.real('T_lens_face', 0.0, 1.0, nonneg=True), c.real('T_filter_plane', 0.0, 1.0, nonneg=True)
+    Rm, Tm = c.real('R_mirror', 0.0, 1.0, nonneg=True), c.real('T_mirror_unused', 0.0, 1.0, nonneg=True)
+    glass = IdealMaterial(n=1.5, k=0)
+    coats = [SimpleCoating(T1, 0.0), SimpleCoating(T2, 0.0), SimpleCoating(Tm, Rm)]
+    o = Optic()
+    o.add_surface(index=0, thickness=c.np.inf)
+    o.add_surface(index=1, radius=50.0, thickness=4.0, material=glass, is_stop=True, coating=coats[0])
+    o.add_surface(index=2, thickness=3.0, material=glass, coating=coats[1])            # a plane inside the glass: same medium object on both sides
+    o.add_surface(index=3, radius=-80.0, thickness=20.0)
+    o.add_surface(index=4, radius=-200.0, thickness=-15.0, material='mirror', coating=coats[2])
+    o.add_surface(index=5)
+    sg = o.surface_group
+    for k_, co in zip((1, 2, 4), coats):
+        c.ensure('C16.factory.surface_carries_the_coating_object_it_was_given', sg.surfaces[k_].coating is co)
+    i0 = c.real('i0', 0.0, 1.0, nonneg=True)
+    rays = mk_rays(c, (0.0, 0.0, -5.0), (0.0, 0.0, 1.0), intensity=i0)
+    sg.trace(rays)
+    want = [i0, i0 * T1, i0 * T1 * T2, i0 * T1 * T2, i0 * T1 * T2 * Rm, i0 * T1 * T2 * Rm]
+    for k_ in range(6):
+        c.ensure_eq('C16.factory.recorded_intensity_is_the_running_product_of_the_given_coating_factors', c.val(sg.intensity[k_]), want[k_])
+    c.ensure_eq('C16.factory.returned_intensity_is_the_product_of_the_given_coating_factors', c.val(rays.i), want[-1])
+
+
 def _polarized_mode(ct, tier, seed):
     """bounded, whole lens: with polarization tracking switched on (any state) and no polarization-dependent element, the
     intensities returned by Optic.trace must be those of the scalar trace (apertures, absorption, simple coatings)
